@@ -240,7 +240,30 @@ def analyse(mod, run, label, skip=()):
         # ---- R1: measured value ----
         ms = measured_values(fn, w)
         ms = [m for m in ms if fn.dominates(ok_succ, m[2].block.id) or m[2].block.id in fn.reachable(ok_succ)]
-        if not ms: raise AnalysisBroken("%s: no width computation found after the checked add" % fn.name)
+        if not ms:
+            # a byte-count loop that does not start from scratch (`w = oldWidth; rest = sum >> 8*w; while (rest) { w++; rest >>= 8; }`) is not
+            # the width of the sum: it can never come out below its start.  With a store that sizes itself from the value, the width
+            # that is returned (and compared for the no-grow refusal) is then not the width of what was written.
+            partial = None
+            for h_, body_ in fn.loops().items():
+                sh_ = ct_ = None
+                for p_ in fn.bmap[h_].insts:
+                    if p_.op != "phi" or len(p_["incoming"]) != 2: continue
+                    bk_ = [x for x in p_["incoming"] if x["b"] in body_]; ot_ = [x for x in p_["incoming"] if x["b"] not in body_]
+                    if len(bk_) != 1 or len(ot_) != 1: continue
+                    bv_ = strip(fn, bk_[0]["v"])
+                    if bv_["k"] != "inst": continue
+                    bi_ = fn.imap[bv_["v"]]
+                    if bi_.op == "lshr" and bi_.ops[1]["k"] == "int" and int(bi_.ops[1]["v"]) == 8 and same(fn, bi_.ops[0], {"k": "inst", "v": p_.id}): sh_ = p_
+                    if bi_.op == "add" and bi_.ops[1]["k"] == "int" and int(bi_.ops[1]["v"]) == 1 and same(fn, bi_.ops[0], {"k": "inst", "v": p_.id}) and ot_[0]["v"]["k"] != "int": ct_ = (p_, ot_[0]["v"])
+                if sh_ is not None and ct_ is not None and (fn.dominates(ok_succ, h_) or h_ in fn.reachable(ok_succ)): partial = (sh_, ct_)
+            autosized = [pt for pt in puts if pt.op == "call" and not any(pt.ops[k]["t"] == "i32" and not pt.ops[k]["t"].endswith("*") for k in range(pt["nargs"]))]
+            if partial is not None and autosized:
+                run.fail(Finding("R1-width-not-measured-from-sum", fn.name, "width-computation", "value",
+                                 "the width reported for the sum is counted up from a starting width (the loop at %s only looks at the bytes above it) while %s at %s sizes the stored bytes from the value itself: when the sum is narrower than the start the stored bytes are shorter than the reported width and the stale high bytes are read back" % (
+                                     loc(partial[0]), autosized[0].get("callee"), loc(autosized[0])), loc=loc(partial[0])))
+                continue
+            raise AnalysisBroken("%s: no width computation found after the checked add" % fn.name)
         meas = ms[-1]
         run.check(same(fn, meas[0], S), "R1-measured-value-is-stored-value", {"fn": fn.name, "measure": loc(meas[2])},
                   Finding("R1-width-of-wrong-value", fn.name, "width-computation", "value",
